@@ -106,6 +106,46 @@ func checkC12(r *Run) {
 			r.check(okS && okL, "r2", key+" (accept)", ex.Ret.Pos(), "accepted only with msize != 0, a parsed version and base 9P2000.L", "a version is accepted on a path where msize may be 0, the version string may not have parsed, or the dialect may not be 9P2000.L (facts: "+describePaths(ex.St)+")")
 		}
 	}
+	// A refused Tversion leaves no trace: everything the handler stores in the connection
+	// (message size, version, buffer pools) is stored on the accepting path only.
+	accepting := func(st *HState) bool {
+		if st.Dead {
+			return true
+		}
+		if !(st.holds(recv+".MSize == 0", false) && pvOK != "" && st.holds(pvOK, true)) || len(st.Paths) == 0 {
+			return false
+		}
+		// the dialect: as for the accepting exit (some path has established 9P2000.L, none
+		// one of the other dialects)
+		okL := false
+		for _, p := range st.Paths {
+			for k, v := range p {
+				if v && strings.HasSuffix(k, "== version9P2000L") {
+					okL = true
+				}
+				if v && (strings.HasSuffix(k, "== version9P2000") || strings.HasSuffix(k, "== version9P2000U")) {
+					return false
+				}
+			}
+		}
+		return okL
+	}
+	nStores := 0
+	for _, s := range db.ByFunc[tv] {
+		if strings.HasPrefix(s.Callee, "sync/atomic.Store") && len(s.Call.Args) == 2 && strings.Contains(r.L.str(s.Call.Args[0]), ".") {
+			nStores++
+			r.check(accepting(s.St), "r2", "tversion.handle: "+r.L.str(s.Call.Args[0])+" stored on the accepting path only", s.Call.Pos(), "msize != 0, version parsed, base 9P2000.L",
+				"connection state is updated on a path where the Tversion may still be refused (facts: "+describePaths(s.St)+"): a refused request would change the negotiated msize/version")
+		}
+	}
+	for _, fa := range m.fields() {
+		if fa.Root == tv && fa.Write && strings.HasPrefix(fa.Key, "p9.connState.") {
+			nStores++
+			r.check(accepting(fa.St), "r2", "tversion.handle: "+fa.Key+" written on the accepting path only", fa.Sel.Pos(), "msize != 0, version parsed, base 9P2000.L",
+				"connection state is written on a path where the Tversion may still be refused: a refused request would change the connection")
+		}
+	}
+	r.floor("r2", "stores of tversion.handle into the connection", nStores, 3)
 	r.check(nex >= 4, "r1", "tversion.handle exits", tv.Decl.Pos(), fmt.Sprintf("%d exits", nex), fmt.Sprintf("only %d exits found", nex))
 	r.check(unknownVar != "", "r2", "the 'unknown' reply", tv.Decl.Pos(), "literal {MSize: 0, Version: \"unknown\"}", "no literal rversion{MSize: 0, Version: \"unknown\"} found")
 	// no panicking construct other than the clamped makes: index/slice expressions and type assertions
@@ -473,6 +513,39 @@ func c12Client(r *Run, m *ServerModel) {
 			payloadStore = true
 		}
 	}
+	// ... and the payload size in force when NewClient returns was computed after the last
+	// change of the message size (a forward must-analysis: a store to c.messageSize
+	// invalidates, a store to c.payloadSize re-establishes)
+	syncExits, _ := mustFlag(db, nc, func(n ast.Node, res *resolver) (bool, bool) {
+		as, ok := n.(*ast.AssignStmt)
+		if !ok {
+			return false, false
+		}
+		val, ch := false, false
+		for _, lhs := range as.Lhs {
+			if sel, ok := unparen(lhs).(*ast.SelectorExpr); ok {
+				switch r.L.fieldKey(fieldOf(info, sel)) {
+				case "p9.Client.messageSize":
+					val, ch = false, true
+				case "p9.Client.payloadSize":
+					val, ch = true, true
+				}
+			}
+		}
+		return val, ch
+	}, nil)
+	okSync, nS := true, 0
+	for _, ex := range db.Exits[nc] {
+		if ex.Fn != ast.Node(nc.Decl) || ex.Ret == nil || len(ex.Ret.Results) != 2 || ex.St.Dead || !isNilIdent(info, unparen(ex.Ret.Results[1])) {
+			continue
+		}
+		nS++
+		if !syncExits[ex.Ret] {
+			okSync = false
+		}
+	}
+	r.check(okSync && nS > 0, "r5", "NewClient: the payload size is derived from the final message size", nc.Decl.Pos(), "every store to c.messageSize is followed by a recomputation of c.payloadSize before NewClient returns",
+		"c.messageSize is changed after c.payloadSize was last computed: ReadAt/WriteAt keep chunking by the size the client requested, not the one the server announced")
 	r.check(readsMSize && msizeStore && payloadStore, "r5", "NewClient adopts the reply's msize", nc.Decl.Pos(),
 		"Rversion.MSize is read, stored into c.messageSize and the payload size is recomputed after negotiation",
 		fmt.Sprintf("the msize announced by the server is not adopted (Rversion.MSize read=%v, stored into c.messageSize=%v, c.payloadSize recomputed after negotiation=%v): when the server lowers msize the client keeps sending frames of its own requested size", readsMSize, msizeStore, payloadStore))
